@@ -140,15 +140,55 @@ impl<'a> World<'a> {
                     .get(e.idx)
                     .map(|p| p.status == "Running" && p.pid == e.pid)
                     .unwrap_or(false);
-                if unchanged && self.stale.contains(&e.bin) && !rewritten {
-                    // the process died by an external event and this invocation did not re-assert the record
+                let mid = self.mid_deaths.get(&e.bin).copied();
+                let died_mid = if mid.is_some() { "yes" } else { "no" };
+                // (a) the process died by an external event, the record is untouched and this invocation did not
+                //     both refresh and save;
+                // (b) it died in the middle of this invocation, the record is about that very process and the
+                //     registry was not saved after the manager's own pid lookup had shown it gone
+                let excused = self.stale.contains(&e.bin)
+                    && ((unchanged && !rewritten)
+                        || match mid {
+                            None => false,
+                            Some((observed, pid)) => {
+                                e.pid == Some(pid as u64)
+                                    && match observed {
+                                        None => true,
+                                        Some(o) => out.last_save_seq.map(|s| s < o).unwrap_or(true),
+                                    }
+                            }
+                        });
+                if excused {
+                    // the process died by an external event and nothing written afterwards re-asserted the record
                     self.rep.probe("stale_running_record_after_external_death");
+                    if matches!(mid, Some((Some(_), _))) {
+                        self.rep.probe("death_seen_by_manager_after_its_last_save_not_persisted");
+                    }
                     continue;
                 }
                 let shape = if live.is_none() { "no_process" } else { "pid_mismatch" };
+                // ServiceManager::start on a service recorded Running whose process it finds dead goes straight
+                // to a relaunch without marking it stopped; if the relaunch fails the old record survives.
+                let relaunch_failed = op == "start"
+                    && matches!(mid, Some((Some(_), pid)) if e.pid == Some(pid as u64))
+                    && out.per.iter().any(|(_, idx, r)| *idx == e.idx && r.is_err());
+                if relaunch_failed {
+                    self.viol(
+                        "start.relaunch_failed_record_kept_running",
+                        &[("shape", shape.into()), ("died_mid_operation", "yes".into())],
+                        format!(
+                            "{} was recorded Running (pid {:?}); its process died during `start`, the manager saw it gone and tried to relaunch it, the relaunch failed, and the registry saved afterwards still records Running with the old pid (OS: {})",
+                            e.name,
+                            e.pid,
+                            live.map(|p| format!("pid {p}")).unwrap_or("no process".into())
+                        ),
+                        true,
+                    );
+                    continue;
+                }
                 self.viol(
                     "running_without_process",
-                    &[("op", op.clone()), ("result", res.clone()), ("failing_call", failing.clone()), ("shape", shape.into())],
+                    &[("op", op.clone()), ("result", res.clone()), ("failing_call", failing.clone()), ("shape", shape.into()), ("died_mid_operation", died_mid.into())],
                     format!(
                         "{} is recorded Running with pid {:?} after `{op}` ({res}) but the OS has {} for its binary",
                         e.name,
